@@ -1037,3 +1037,17 @@ def g_charref_values(flags="nc"):
         out.append(Case(dtd + "<r>&e;</r>", flags, True, meta={"gen": "charref-value-entity-text", "cp": cp, "src": "&e;", "expect_text": spec.decode_text("&e;", ents)}))
         out.append(Case(dtd + "<r k='&e;'/>", "c", True, meta={"gen": "charref-value-entity-attr", "cp": cp, "src": "&e;", "expect_attr": spec.norm_attr("&e;", ents)}))
     return out
+
+
+def g_long_prefix_then_ref(flags="ncpb"):
+    """a long literal run (around 16 / 32 / 64 bytes) directly before a reference that yields markup only, nothing, or text:
+    the text node before the reference keeps its own span and storage"""
+    out = []
+    decls = [("m", "<b/>"), ("z", ""), ("t", "T"), ("c", "<!--k-->")]
+    for n in (1, 15, 16, 17, 31, 32, 33, 63, 64, 65, 200):
+        lit = ("abcdefghij" * 30)[:n]
+        for ref in ("&m;", "&z;", "&t;", "&c;", "&#65;", "&amp;"):
+            for tail in ("", "x", "<i/>"):
+                out.append(Case(ent_doc(decls, "<r>" + lit + ref + tail + "</r>"), flags, True, meta={"gen": "long-prefix-then-ref", "n": n, "ref": ref}))
+        out.append(Case(ent_doc(decls, "<r k='" + lit + "&t;'><a>" + lit + "\r&m;</a></r>"), flags, True, meta={"gen": "long-prefix-then-ref", "n": n, "ref": "attr+cr"}))
+    return out
